@@ -14,15 +14,27 @@ Full statement aimed at (kept visible; the theorems below are its proved parts):
       ∀ l ∈ lines, isDataLine l → lineValid l
 
 Proved: `findLcm_dvd` (invariant of the double loop), `newDens_dvd`, `slot_exact` (re-slotting keeps the position),
-`slot_roundtrip` (a written slot denotes exactly the row's snap),
-`no_merge_no_drop` (line level: every cell's id sits on its slot, every other slot is `00`, the line has `den`
-slots), `line_valid`, `base36_roundtrip` (ids of up to 1295 tempo points are distinct two-character ids),
-`writer_consts_tie`, and `bpm_3f_counterexample` (D06).
-`bms_write_read` itself is NOT proved (`_partial` below only composes the slot lemmas); missing: K1's
-`snaps` = nearest grid position under the measure-line hypothesis (C10's domain), the grouping of cells into lines
-(`lineKeys` covers every cell), and the text-level `denote ∘ render` bridge.
+`slot_roundtrip` (a written slot denotes exactly the row's snap), `no_merge_no_drop` (line level: every cell's
+id sits on its slot, every other slot is `00`, the line has `den` slots), `line_valid`, `base36_roundtrip`,
+`writer_consts_tie`, `bpm_3f_counterexample` (D06), and towards `denote ∘ write = id`:
+* `lineKeys_cover` / `lineKeys_unique` — every cell is written in exactly one output line;
+* `written_line_denotes` (with `classify_rendered`) — the denotation's lexer reads a rendered line back as measure,
+  channel and exactly the line's non-`00` cells at beat `4·idx/den`;
+* `write_positions` — `TimingMap.snaps` as the model runs it: the by-the-book time of every written position is
+  the in-memory time exactly on the snap grid and within 1/192 beat (at the tempo in force) otherwise (through
+  C10's `timeAtAux_snapAtAux` / `_err`, `snap_err_default`, `bcsOfBco_rederive`, `stableArgsort_sortsAscR`);
+* `written_slot_time` — the two composed: the slot the writer fills for a time denotes that time.
+`bms_write_read` as ONE theorem is still NOT assembled.  Missing: the rendered header read back (`#BPM`,
+`#BPMxx`, `#LNOBJ`, `#WAVxx` through `readHeader`), the union of the written lines per channel (`channelObjs` over
+`linesOfCells`), the by-the-book LNOBJ pairing on the written lane (needs "nothing inside a hold of its lane",
+D37), and "the tempo objects of the written file are the in-memory tempo list" (needs the positions `snaps`
+assigns to the tempo points' own offsets).
 -/
 import Reamber.Lemmas.FindLcm
+import Reamber.Lemmas.BMSLines
+import Reamber.Lemmas.BMSRender
+import Reamber.Lemmas.BMSRead
+import Reamber.Props.C10
 import Reamber.Model.BMS
 import Reamber.Spec.BMS
 import Mathlib.Tactic.Ring
@@ -224,6 +236,93 @@ theorem slot_roundtrip (r : WRow) (nd : Nat) (hmet : r.snap.met = some 4) (hb : 
   field_simp
   linarith
 
+/-! ### times: what the writer's positions denote -/
+
+/-- **The positions the writer computes denote the in-memory times.**
+
+`cs` is a well-formed ascending tempo list starting at measure 0 beat 0, grid-compatible on the shipped grid of
+96 (tempo points on measure lines always are), `tmOf 0 cs` what the chart stores for it.  For EVERY list of
+times at or after the first tempo point (any order, duplicates), `TimingMap.snaps` as the model runs it (its own
+`stableArgsort`, the backwards sweep, `Snap.from_offset` with the `Snapper` of 96) succeeds, returns one position
+per time in the order of the times, and the by-the-book time `timeAt 0 cs` of each position is
+* within 1/192 beat — at the tempo in force — of the in-memory time, and
+* exactly the in-memory time when that time lies on the snap grid of its tempo segment. -/
+theorem write_positions (cs : List BcSnap) (hwf : wfChanges cs = true) (hs : sortedSnaps cs = true)
+    (h0 : firstAtZero cs = true) (hgc : gridCompatible (grid defaultMaxDiv) cs = true) (hm : metronomeOk cs = true)
+    (ts : List Rat) (hts : ∀ t ∈ ts, 0 ≤ t) :
+    ∃ F : Rat → Snap, snaps defaultGrid (tmOf 0 cs) ts = .ok (ts.map F) ∧
+      ∀ t ∈ ts, queryOk cs (F t) = true ∧
+        rabs (timeAt 0 cs (F t) - t) ≤ 1 / 192 * activeBeatLen 0 cs t ∧
+        (OnGridAt (grid defaultMaxDiv) 0 cs t → timeAt 0 cs (F t) = t) := by
+  have hg : GridOK defaultGrid := gridOK_grid (by decide)
+  have hgc' : gridCompatible defaultGrid.toList cs = true := by simpa [defaultGrid] using hgc
+  have hb := bcsOfBco_rederive hg 0 cs hwf hs h0 hgc' hm
+  cases cs with
+  | nil => simp [firstAtZero] at h0
+  | cons c rest =>
+    let F : Rat → Snap := fun t => ((snapAtAux defaultGrid 0 c rest t).toOption).getD default
+    have hF : ∀ t ∈ ts, lookupSnap defaultGrid ((c :: rest).zip (tmOf 0 (c :: rest))).reverse t = .ok (F t) ∧
+        queryOk (c :: rest) (F t) = true ∧
+        rabs (timeAt 0 (c :: rest) (F t) - t) ≤ 1 / 192 * activeBeatLen 0 (c :: rest) t ∧
+        (OnGridAt (grid defaultMaxDiv) 0 (c :: rest) t → timeAt 0 (c :: rest) (F t) = t) := by
+      intro t ht
+      obtain ⟨S, hS, hle, hb0, hback⟩ :=
+        timeAtAux_snapAtAux_err hg snap_err_default 0 c rest t hwf hs hgc' hm (hts t ht)
+      have hFt : F t = S := by simp [F, hS, Except.toOption]
+      refine ⟨?_, ?_, ?_, ?_⟩
+      · simp only [tmOf, List.zip_cons_cons]
+        rw [lookupSnap_eq_snapAtAux defaultGrid 0 c rest t hwf hs (hts t ht), hS, hFt]
+      · rw [hFt]; simp [queryOk, hle, hb0]
+      · rw [hFt]; exact hback
+      · intro hon
+        obtain ⟨hT, hgrid⟩ := hon
+        have hgrid' : onGridAux defaultGrid.toList 0 c rest t := by simpa [defaultGrid] using hgrid
+        obtain ⟨S', hS', _, _, hback'⟩ := timeAtAux_snapAtAux hg 0 c rest t hwf hs hm hT hgrid'
+        rw [hS] at hS'
+        injection hS' with e
+        rw [hFt, e]
+        exact hback'
+    refine ⟨F, ?_, fun t ht => (hF t ht).2⟩
+    exact snapsWith_order defaultGrid _ _ ts _ _ F hb (stableArgsort_sortsAscR ts) (fun t ht => (hF t ht).1)
+
+/-- **A written object denotes its in-memory time** (`write_positions` composed with `slot_roundtrip`): the slot
+`idx` of `nd` that the writer fills for an object at time `t` — in the line of the measure of its snap — lies, by
+the book, at a position whose time is `t` exactly when `t` is on the snap grid, and within 1/192 beat otherwise.
+`F` is the position function of `write_positions`; `nd` any positive multiple of the row's denominator
+(`newDens_dvd`). -/
+theorem written_slot_time (cs : List BcSnap) (F : Rat → Snap) (t : Rat) (ch v : Bytes) (nd : Nat)
+    (hmet : (F t).met = some 4) (hq : queryOk cs (F t) = true) (hnd : 0 < nd)
+    (hdvd : (slotOfRow ⟨F t, ch, v⟩).den ∣ nd) :
+    timeAt 0 cs ⟨(F t).measure, 4 * (((cellOf (slotOfRow ⟨F t, ch, v⟩) nd).idx : Nat) : Rat) / ((nd : Nat) : Rat), none⟩ =
+      timeAt 0 cs (F t) := by
+  have hb : 0 ≤ (F t).beat := by
+    cases cs with
+    | nil => simp [queryOk] at hq
+    | cons c rest =>
+      simp only [queryOk, Bool.and_eq_true, decide_eq_true_eq] at hq
+      exact hq.2
+  have := slot_roundtrip ⟨F t, ch, v⟩ nd hmet hb hnd hdvd
+  simp only at this
+  rw [this]
+  -- `timeAt` does not look at the metronome field of the query
+  cases cs with
+  | nil => rfl
+  | cons c rest =>
+    simp only [timeAt]
+    have hgen : ∀ (T : Rat) (cur : BcSnap) (l : List BcSnap) (a b : Snap), a.measure = b.measure → a.beat = b.beat →
+        timeAtAux T cur l a = timeAtAux T cur l b := by
+      intro T cur l
+      induction l generalizing T cur with
+      | nil => intro a b h1 h2; simp [timeAtAux, snapDist, h1, h2]
+      | cons n l ih =>
+        intro a b h1 h2
+        have hle : n.snap.le a = n.snap.le b := by simp [Snap.le, Snap.lt, Snap.eqv, h1, h2]
+        simp only [timeAtAux, hle, snapDist, h1, h2]
+        split
+        · exact ih _ _ a b h1 h2
+        · rfl
+    exact hgen 0 c rest _ _ rfl rfl
+
 /-! ### the slot fill -/
 
 def fillFrom (seq : List Bytes) (cells : List WCell) : List Bytes :=
@@ -351,6 +450,112 @@ theorem line_valid (cells : List WCell) (k : WCell) (hm : 0 ≤ k.measure ∧ k.
     omega
   · simp only [lineOf, hmt, hab, List.cons_append, List.nil_append, List.length_cons, hfl.1]
     omega
+
+/-! ### a written line, read back by the book -/
+
+theorem measure_text_parse : ∀ m, m < 1000 → parseNat (padLeft 3 '0' (showNat m)) = some m := by
+  decide +kernel
+
+theorem zipIdxFrom_mem_iff {α} (l : List α) : ∀ (k : Nat) (p : Nat × α),
+    p ∈ zipIdxFrom k l ↔ ∃ i, i < l.length ∧ p.1 = k + i ∧ l[i]? = some p.2 := by
+  induction l with
+  | nil => intro k p; simp [zipIdxFrom]
+  | cons a t ih =>
+    intro k p
+    simp only [zipIdxFrom, List.mem_cons, ih (k + 1) p]
+    constructor
+    · rintro (rfl | ⟨i, hi, h1, h2⟩)
+      · exact ⟨0, by simp, by simp, by simp⟩
+      · exact ⟨i + 1, by simp [hi], by omega, by simpa using h2⟩
+    · rintro ⟨i, hi, h1, h2⟩
+      cases i with
+      | zero =>
+        left
+        simp only [List.getElem?_cons_zero, Option.some.injEq] at h2
+        exact Prod.ext (by simpa using h1) h2.symm
+      | succ j =>
+        right
+        exact ⟨j, by simpa using hi, by omega, by simpa using h2⟩
+
+/-- **A written data line, read back by the book, is its cells.**  For the line of key `k` (measure below 1000,
+two-character base-36 channel and ids, positive denominator, cells on pairwise different slots inside the line):
+the lexer of the denotation classifies the rendered text as a data line of measure `k.measure` and channel
+`k.channel`, its data splits into exactly the `den` slots, and the by-the-book objects of the line are exactly
+the cells with a non-`00` id, each at beat `4·idx/den` of the measure, carrying its id. -/
+theorem written_line_denotes (cells : List WCell) (k : WCell) (hm : 0 ≤ k.measure ∧ k.measure < 1000) (hden : 0 < k.den)
+    (hch : ∃ a b, k.channel = [a, b] ∧ isB36 a = true ∧ isB36 b = true)
+    (hv : ∀ c ∈ cells, c.value.length = 2 ∧ c.value.all isB36 = true)
+    (hpw : (cells.filter (sameLine k)).Pairwise (fun a b => a.idx ≠ b.idx))
+    (hlt : ∀ c ∈ cells.filter (sameLine k), c.idx < k.den) :
+    ∃ mt data objs, classify (lineOf cells k) = .ok (.note mt k.channel data) ∧ parseNat mt = some k.measure.toNat ∧
+      lineObjs k.measure.toNat data = some objs ∧
+      ∀ o, o ∈ objs ↔ ∃ c ∈ cells.filter (sameLine k), c.value ≠ ['0', '0'] ∧
+        o = ⟨⟨(k.measure.toNat : Int), 4 * ((c.idx : Nat) : Rat) / ((k.den : Nat) : Rat), none⟩, c.value⟩ := by
+  obtain ⟨a, b, hab, ha, hb⟩ := hch
+  have hmn : k.measure.toNat < 1000 := by omega
+  obtain ⟨m1, m2, m3, hmt, h1, h2, h3⟩ := measure_text k.measure.toNat hmn
+  obtain ⟨grp, hgrp⟩ : ∃ grp, grp = cells.filter (sameLine k) := ⟨_, rfl⟩
+  rw [← hgrp] at hpw hlt
+  obtain ⟨seq, hseq⟩ : ∃ seq, seq = fillSeq k.den grp := ⟨_, rfl⟩
+  have hseqP : ∀ x ∈ seq, x.length = 2 ∧ x.all isB36 = true := by
+    rw [hseq]
+    apply fillFrom_all (fun x => x.length = 2 ∧ x.all isB36 = true)
+    · intro c hc; rw [hgrp] at hc; exact hv c (List.mem_filter.mp hc).1
+    · intro x hx
+      rw [List.eq_of_mem_replicate hx]
+      decide
+  obtain ⟨hlen, hget, hother⟩ := no_merge_no_drop k.den grp hpw hlt
+  rw [← hseq] at hlen hget hother
+  have hfl := flatten_two seq hseqP
+  have hne : seq.flatten ≠ [] := by
+    intro e
+    have := hfl.1
+    rw [e, hlen] at this
+    simp at this
+    omega
+  have hdata : ∀ c ∈ seq.flatten, isB36 c = true := by
+    intro c hc
+    have := hfl.2
+    rw [List.all_eq_true] at this
+    exact this c hc
+  have hline : lineOf cells k = '#' :: m1 :: m2 :: m3 :: a :: b :: ':' :: seq.flatten := by
+    simp [lineOf, hmt, hab, hseq, hgrp]
+  refine ⟨[m1, m2, m3], seq.flatten, objsOfPairs k.measure.toNat seq, ?_, ?_, ?_, ?_⟩
+  · rw [hline, classify_rendered m1 m2 m3 a b _ h1 h2 h3 ha hb hdata hne, hab]
+  · rw [← hmt]; exact measure_text_parse _ hmn
+  · exact lineObjs_eq _ _ _ (evenPairs_flatten seq (fun x hx => (hseqP x hx).1))
+  · intro o
+    rw [← hgrp]
+    simp only [objsOfPairs, List.mem_filterMap, hlen]
+    constructor
+    · rintro ⟨p, hp, hpo⟩
+      obtain ⟨i, hi, hp1, hp2⟩ := (zipIdxFrom_mem_iff seq 0 p).mp hp
+      have hp1' : p.1 = i := by omega
+      have hgetD : seq.getD i [] = p.2 := by simp [List.getD_eq_getElem?_getD, hp2]
+      by_cases h00 : p.2 = ['0', '0']
+      · simp [h00] at hpo
+      · simp only [h00, if_false, Option.some.injEq] at hpo
+        -- slot `i` is not empty, so some cell sits on it
+        have hex : ∃ c ∈ grp, c.idx = i := by
+          apply Classical.byContradiction
+          intro hno
+          have hno' : ∀ c ∈ grp, c.idx ≠ i := fun c hc e => hno ⟨c, hc, e⟩
+          have := hother i hno' (by rw [← hlen]; exact hi)
+          rw [hgetD] at this
+          exact h00 this
+        obtain ⟨c, hc, hci⟩ := hex
+        have hval := hget c hc
+        rw [hci, hgetD] at hval
+        refine ⟨c, hc, by rw [← hval]; exact h00, ?_⟩
+        rw [← hpo, hp1', ← hval, hci]
+    · rintro ⟨c, hc, hne0, rfl⟩
+      have hci : c.idx < seq.length := by rw [hlen]; exact hlt c hc
+      have hval := hget c hc
+      have hval' : seq[c.idx]? = some c.value := by
+        rw [List.getD_eq_getElem?_getD, List.getElem?_eq_getElem hci, Option.getD_some] at hval
+        rw [List.getElem?_eq_getElem hci, hval]
+      refine ⟨(c.idx, c.value), (zipIdxFrom_mem_iff seq 0 _).mpr ⟨c.idx, hci, by simp, hval'⟩, ?_⟩
+      simp [hne0]
 
 /-! ### D06 -/
 
